@@ -82,7 +82,7 @@ func regWeights() map[string]int {
 }
 
 func regProfile() *Profile {
-	return &Profile{Weights: regWeights(), PReimport: 4, PSameKind: 30, PForward: 50, PRetry: 6, PCheck: 7, GasSweep: true, MultiPct: 18, PExecTail: 12, PBulk: 8, MinBlocks: 6, MaxBlocks: 30, MaxTxs: 5, MaxOps: 3, PUpper: 8, PActor: 10, PNamed: 2, PFault: 2, PExec: 10,
+	return &Profile{Weights: regWeights(), PReimport: 4, PMultiTarget: 15, PSameKind: 30, PForward: 50, PRetry: 6, PCheck: 7, GasSweep: true, MultiPct: 18, PExecTail: 12, PBulk: 8, MinBlocks: 6, MaxBlocks: 30, MaxTxs: 5, MaxOps: 3, PUpper: 8, PActor: 10, PNamed: 2, PFault: 2, PExec: 10,
 		PGovParams: 7, PBadRef: 5, TinyLimits: true, ValidParams: true, GovKinds: []string{ParamsWrk, ParamsBcn}}
 }
 
@@ -252,7 +252,7 @@ func c01Weights() map[string]int {
 var cfgC01 = reg(PropCfg{
 	ID: "C01",
 	Profile: &Profile{Weights: c01Weights(), SlotRules: []int{0, 0, 0, 1, 2, 2, 2, 3, 5}, MinBlocks: 3, MaxBlocks: 22, MaxTxs: 5, MaxOps: 3, PUpper: 6, PActor: 8, PNamed: 2, PFault: 5, PExec: 8,
-		PGovParams: 8, PBadRef: 5, Vesting: true, TinyLimits: true, BigAmounts: true, LongTime: true, GasSweep: true, MultiPct: 25, PSameKind: 35, PCheck: 8, Crashes: true, EntDenomChange: false, PFeePayer: 4, PGranter: 4, PForward: 40, PRetry: 3, PExecTail: 8},
+		PGovParams: 8, PBadRef: 5, Vesting: true, TinyLimits: true, BigAmounts: true, LongTime: true, GasSweep: true, MultiPct: 25, PSameKind: 35, PCheck: 8, Crashes: true, EntDenomChange: false, PMultiTarget: 40, PFeePayer: 4, PGranter: 4, PForward: 40, PRetry: 3, PExecTail: 8},
 	Rule: "history with >=1 successful custom-module tx and >=1 failed tx, executed on a second node that differs in node-local options and/or is restarted inside a block that already delivered a tx",
 	PerCase: c01PerCase,
 	MinClasses: map[string]int{"c01.restarts": 50, "c01.restarts-after-tx": 10, "c01.ok-custom-tx": 300, "c01.failed-tx": 200},
